@@ -68,15 +68,27 @@ def nontrivial(case):
 
 # ------------------------------------------------------------------------------------------------ generation
 
+def _split(s, bd):
+    """spec split of a well-formed body or prefix; tolerates the one prefix shape the reference splitter refuses
+    (the string ends with the CR of the CRLF behind the close-delimiter). None where the splitter refuses."""
+    if len(s) < len(bd) + 2:
+        return {'parts': [], 'closed': False, 'close_end': None, 'epilogue': None}
+    try:
+        return ms.split(s, bd)
+    except ValueError:
+        if s.endswith(b'\r'):
+            try:
+                sp = ms.split(s[:-1], bd)
+            except ValueError:
+                return None
+            if sp['close_end'] == len(s) - 1:
+                return sp
+        return None
+
+
 def _split_ok(s, bd):
     """False where the reference splitter refuses the string (the two spec functions disagree: excluded)."""
-    if len(s) < len(bd) + 2:
-        return True
-    try:
-        ms.split(s, bd)
-        return True
-    except ValueError:
-        return False
+    return _split(s, bd) is not None
 
 
 def _strings_upto(k, letters=LETTERS):
@@ -169,7 +181,9 @@ def _ss_bodies(tier):
                     yield bd, stem + d + delim + CRLF + b'h' + CRLF + CRLF + delim + b'--'
 
 
-GEN_BOUNDARIES = [b'X', b'-', b'--a-', b'bnd', b'a b', b'----WebKitFormBoundary7MA4YWxkTrZu0gW', b'0123456789' * 7]
+SHORT_BOUNDARIES = [b'X', b'-', b'--a-', b'bnd', b'a b']
+WEBKIT = b'----WebKitFormBoundary7MA4YWxkTrZu0gW'
+LONG70 = b'0123456789' * 7
 
 
 def _gen_headers():
@@ -184,11 +198,14 @@ def _gen_data(bd):
     tl = len(delim)
     out = [b'', b'v', b'\r', b'\n', CRLF, b'\n\r', b'-', b'--', b'\r\r\n', CRLF + CRLF, CRLF * 3 + b'\r', b'-' * 7,
            delim[:-1] + b'\x00', delim[:-1] + CRLF, delim[:-1] * 2, b'\r' + delim[:-1], b'x--' + bd + b'--', b'x--' + bd + CRLF,
-           (CRLF + b'--') * 3, b'a' * (tl - 1), b'a' * tl, b'a' * (tl + 1), b'a' * (2 * tl - 1) + b'\r', b'a' * (tl - 2) + CRLF + b'-',
-           bytes(range(256)).replace(delim, b'')]
-    out += [delim[:k] for k in range(3, tl) if delim[:k] not in out]
-    out += [b'a' * k + delim[:3] for k in range(0, tl)]
+           (CRLF + b'--') * 3, b'a' * (tl - 1), b'a' * tl, b'a' * (tl + 1), b'a' * (2 * tl - 1) + b'\r', b'a' * (tl - 2) + CRLF + b'-']
+    out += [delim[:k] for k in range(3, min(tl, 12)) if delim[:k] not in out]
+    out += [b'a' * k + delim[:3] for k in range(0, min(tl, 9))]
     return out
+
+
+def _all_bytes(bd):
+    return bytes(range(256)).replace(CRLF + b'--' + bd, b'')
 
 
 ENDINGS = [dict(), dict(final_crlf=True), dict(epilogue=b'ep'), dict(epilogue=b'\r\n--%b--\r\n')]
@@ -201,48 +218,87 @@ def _ending(e, bd):
     return e
 
 
+def _build(parts, bd, e):
+    if not ms.legal_boundary(parts, bd):
+        return None
+    return ms.build(parts, bd, **_ending(e, bd))
+
+
 def _gen_bodies(tier, seed):
-    """(boundary, complete body) of the generated family; deterministic."""
+    """(boundary, complete body, prefix selection) of the generated family; deterministic.
+    selection 0 = every prefix, k > 0 = every k-th prefix length plus windows around the structural positions."""
     rnd = random.Random(seed * 7919 + 17)
     hdrs = _gen_headers()
     quick = tier == 'quick'
-    for bi, bd in enumerate(GEN_BOUNDARIES):
-        big = len(bd) > 8
+    for bi, bd in enumerate(SHORT_BOUNDARIES):
         data = _gen_data(bd)
-        # zero parts
         for e in ENDINGS:
-            yield bd, ms.build([], bd, **_ending(e, bd))
-        # one part: every data value; header block and ending rotate (quick) or are all combined (thorough, short boundaries)
+            yield bd, ms.build([], bd, **_ending(e, bd)), 0
         for di, d in enumerate(data):
-            if len(d) > 64 and (quick or big) and bi not in (0, 5):
-                continue
-            if quick or big:
-                combos = [(hdrs[(di + bi) % (2 if big or quick else 4)], ENDINGS[(di + bi) % 4])]
-                if not big and di % 3 == 0:
-                    combos.append((hdrs[2 + di % 2], ENDINGS[(di + 1) % 4]))
+            if quick:
+                combos = [(hdrs[(di + bi) % 2], ENDINGS[(di + bi) % 4])]
             else:
-                combos = [(h, e) for h in hdrs[:2] for e in ENDINGS] + [(hdrs[2 + di % 2], ENDINGS[di % 4])]
+                combos = [(h, e) for h in hdrs[:2] for e in ENDINGS]
             for h, e in combos:
-                parts = [(h, d)]
-                if ms.legal_boundary(parts, bd):
-                    yield bd, ms.build(parts, bd, **_ending(e, bd))
+                yield bd, _build([(h, d)], bd, e), 0
+        # RFC 7578 header blocks
+        for hi in (2, 3):
+            for di in ((1, 14) if quick else (0, 1, 12, 14, 18)):
+                if quick and bi not in (0, 2):
+                    continue
+                yield bd, _build([(hdrs[hi], data[di])], bd, ENDINGS[(hi + di) % 4]), 0
         # 2..4 parts, seeded
-        nmulti = (6 if quick else 40) if not big else (2 if quick else 8)
-        for _ in range(nmulti):
-            k = rnd.choice([2, 2, 3, 4])
-            parts = [(rnd.choice(hdrs[:3] if big else hdrs), rnd.choice([d for d in data if len(d) <= 40])) for _ in range(k)]
-            if ms.legal_boundary(parts, bd):
-                yield bd, ms.build(parts, bd, **_ending(rnd.choice(ENDINGS), bd))
+        small = [d for d in data if len(d) <= 12]
+        for k in ([2, 3] if quick else [2, 2, 2, 3, 3, 3, 4, 4, 2, 3, 4, 2]):
+            parts = [(rnd.choice(hdrs[:2]), rnd.choice(small)) for _ in range(k)]
+            yield bd, _build(parts, bd, rnd.choice(ENDINGS)), 0
+        if not quick:
+            parts = [(rnd.choice(hdrs), rnd.choice(data)) for _ in range(3)]
+            yield bd, _build(parts, bd, ENDINGS[bi % 4]), 3
+    # all byte values as data (long filler: many full search windows)
+    yield b'X', _build([(b'h', _all_bytes(b'X'))], b'X', ENDINGS[1]), (9 if quick else 2)
+    if not quick:
+        yield b'--a-', _build([(hdrs[3], _all_bytes(b'--a-')), (b'h', b'\r')], b'--a-', ENDINGS[3]), 3
+        yield WEBKIT, _build([(hdrs[3], _all_bytes(WEBKIT)[:150])], WEBKIT, ENDINGS[1]), 5
+    # long boundaries
+    for bd, sel in ((WEBKIT, 3), (LONG70, 4)):
+        data = _gen_data(bd)
+        if quick:
+            picks = [(0, 1, 1)] if bd is WEBKIT else [(0, 2, 2)]
+        else:
+            picks = [(di % 2, di, di % 4) for di in range(0, len(data), 2 if bd is WEBKIT else 5)]
+        for hi, di, ei in picks:
+            yield bd, _build([(hdrs[hi], data[di])], bd, ENDINGS[ei]), (sel if not quick else sel * 2)
+        if not quick:
+            yield bd, _build([(hdrs[2], data[12]), (hdrs[3], data[13]), (b'h', b'')], bd, ENDINGS[3]), sel * 2
+
+
+def _selected(body, bd, step):
+    n = len(body)
+    if not step:
+        return range(1, n + 1)
+    sp = ms.split(body, bd)
+    w = min(len(bd) + 4, 12) + 3
+    pts = {0, n, sp['close_end'] or n}
+    for a, b, c, d in sp['parts']:
+        pts.update((b, d))
+    sel = set(range(step, n + 1, step))
+    for p in pts:
+        sel.update(range(max(1, p - 2), min(n, p + w) + 1))
+    return sorted(sel)
 
 
 def _prefix_cases(bodies, fam, tier):
-    """Each distinct non-empty prefix of the given (boundary, body) list exactly once, as 'mk' cases."""
-    dlim = 64 if tier == 'quick' else 140
-    full_dlim = 64 if tier == 'quick' else 320
-    nrand = 6 if tier == 'quick' else 24
+    """Each distinct (selected) non-empty prefix of the given (boundary, body, selection) list exactly once, as 'mk' cases."""
+    dlim = 56 if tier == 'quick' else 100
+    full_dlim = 56 if tier == 'quick' else 320
+    nrand = 4 if tier == 'quick' else 16
     by_bd = {}
-    for bd, body in bodies:
-        by_bd.setdefault(bd, set()).add(body)
+    for bd, body, sel in bodies:
+        if body is None:
+            continue
+        d = by_bd.setdefault(bd, {})
+        d[body] = min(sel, d.get(body, sel))
     for bd in sorted(by_bd):
         prev = b''
         for body in sorted(by_bd[bd]):
@@ -251,7 +307,9 @@ def _prefix_cases(bodies, fam, tier):
             while lcp < m and prev[lcp] == body[lcp]:
                 lcp += 1
             prev = body
-            for ln in range(lcp + 1, len(body) + 1):
+            for ln in _selected(body, bd, by_bd[bd][body]):
+                if ln <= lcp:
+                    continue
                 s = body[:ln]
                 if not _split_ok(s, bd):
                     continue
@@ -264,7 +322,7 @@ def _prefix_cases(bodies, fam, tier):
 def _app_fields(bd):
     """Field lists for the end-to-end family (simple unique names; the value space of C07 is not repeated here)."""
     delim = CRLF + b'--' + bd
-    adv = (delim[:-1] + b'\r' + CRLF + b'--' + b'-' * 5 + delim[:-1] + b'\x00' + CRLF * 2 + delim[:3]) * 3 + bytes(range(256)).replace(delim, b'')
+    adv = (delim[:-1] + b'\r' + CRLF + b'--' + b'-' * 5 + delim[:-1] + b'\x00' + CRLF * 2 + delim[:3]) * 2 + _all_bytes(bd)[:160]
     return [
         [('text', 'a', 'v1'), ('file', 'up', 'f.bin', 'application/octet-stream', adv), ('text', 'b', '')],
         [('file', 'up', 'f.bin', None, b'\r'), ('text', 'a', '-'), ('file', 'u2', 'g', 'text/plain', adv[:40] + b'\r')],
@@ -273,13 +331,21 @@ def _app_fields(bd):
     ]
 
 
+def _ranges(lo, hi, width):
+    for a in range(lo, hi, width):
+        yield a, min(a + width, hi)
+
+
 def _app_cases(tier, seed):
+    """Compact cases: (body, prefix length, plan family, index range); run_case expands the range into the concrete runs."""
     quick = tier == 'quick'
-    bds = [b'X', b'--a-'] if quick else [b'X', b'--a-', b'bnd', b'----WebKitFormBoundary7MA4YWxkTrZu0gW']
+    bds = [b'X', b'--a-'] if quick else [b'X', b'--a-', b'bnd', WEBKIT]
     for bd in bds:
         tl = len(bd) + 4
         for fi, fields in enumerate(_app_fields(bd)):
-            for ei, e in enumerate(ENDINGS if not quick else ENDINGS[1:3]):
+            for ei, e in enumerate(ENDINGS):
+                if quick and ei in (0, 2):
+                    continue
                 e = _ending(e, bd)
                 try:
                     body = ms.encode(fields, bd, final_crlf=e.get('final_crlf', False), epilogue=e.get('epilogue', b''))
@@ -287,46 +353,38 @@ def _app_cases(tier, seed):
                     continue
                 n = len(body)
                 nonfile = n - sum(len(f[4]) for f in fields if f[0] == 'file')
-                big = n + nonfile + 64
-                # prefix lengths: the complete body, every prefix of the last 2*tl+8 bytes, every 5th (quick: 11th) elsewhere
-                step = 11 if quick else 5
-                clens = sorted(set([n] + list(range(max(1, n - 2 * tl - 8), n)) + list(range(1, n, step))))
-                if quick and fi in (0, 1) and ei == 1:
-                    clens = [n]
-                for clen in clens:
+                ce = ms.close_delimiter_end(body, bd)
+                # prefix lengths: the complete body; for the longest ending every prefix around the end and every k-th elsewhere
+                # (bodies that differ only in the ending share all other prefixes)
+                clens = [n] + list(range(ce - 3, n))
+                if ei == 3:
+                    clens += list(range(max(1, ce - 2 * tl - 8), n)) + list(range(1, n, 29 if quick else 7))
+                for clen in sorted(set(c for c in clens if c >= 1)):
                     full = clen == n
-                    # (a) scripted short reads, large buffer
-                    singles = [[i] for i in range(1, clen)]
-                    if not full:
-                        singles = [[i] for i in range(1, clen) if clen - i <= 2 * tl + 4 or i % (7 if quick else 3) == clen % 3]
-                    for k in range(0, len(singles), 24):
-                        yield dict(kind='app', bd=bd, body=body, clen=clen, buff=big, plans=[dict(script=s, tail=0) for s in singles[k:k + 24]])
-                    plans = [dict(script=[], tail=t) for t in (1, 2, 3)]
+
+                    def case(plan, lo, hi, step=1, **kw):
+                        return dict(kind='app', bd=bd, body=body, clen=clen, nonfile=nonfile, plan=plan, lo=lo, hi=hi, step=step, **kw)
+                    # (a) scripted short reads with a large buffer: every single cut, byte/2/3-at-a-time
+                    for a, b in _ranges(1, clen, 32):
+                        yield case('single', a, b)
+                    yield case('tails', 1, 4)
+                    # near double cuts (middle chunk 1..3) and short last chunk
                     if full or not quick:
-                        near = [[i, w] for i in range(1, clen - 1) for w in (1, 2, 3) if i + w < clen]
-                        if quick:
-                            near = [p for p in near if (p[0] + p[1]) % 2 == 0]
-                        plans += [dict(script=s, tail=0) for s in near]
-                        # last chunk short
-                        plans += [dict(script=[i, clen - i - w], tail=0) for w in range(1, tl + 6) for i in range(1, clen - w, 3 if quick else 1)
-                                  if clen - i - w > 0]
-                    for k in range(0, len(plans), 24):
-                        yield dict(kind='app', bd=bd, body=body, clen=clen, buff=big, plans=plans[k:k + 24])
+                        lo = 1 if full else max(1, clen - 3 * tl)
+                        for a, b in _ranges(lo, clen - 1, 12):
+                            yield case('near', a, b, 2 if quick else 1)
+                        for a, b in _ranges(lo, clen - 1, 4 if not quick else 12):
+                            yield case('lastshort', a, b, 1 if not quick else 3, w=tl + 5)
                     # (b) every max_memfile_size from the safe lower bound to the body length: regular reads, spooled body
                     lo = nonfile + 48
-                    if clen > lo and (full or clen % (4 if quick else 2) == 0):
-                        buffs = list(range(lo, clen))
-                        if not full:
-                            buffs = buffs[::5 if quick else 2]
-                        for k in range(0, len(buffs), 24):
-                            yield dict(kind='app', bd=bd, body=body, clen=clen, buff=0, plans=[dict(buff=b, script=[], tail=0) for b in buffs[k:k + 24]])
-                        yield dict(kind='app', bd=bd, body=body, clen=clen, buff=lo, plans=[dict(script=[], tail=t) for t in (1, 7, lo - 1)]
-                                   + [dict(script=[i], tail=0) for i in range(1, min(clen, lo), 9)])
+                    if clen > lo and (full or clen % (7 if quick else 3) == 0):
+                        for a, b in _ranges(lo, clen, 32):
+                            yield case('buffs', a, b, 1 if full else (5 if quick else 2))
+                        yield case('spooled', 1, min(clen, lo), 9, buff=lo)
                     # (c) chunked framing: the cuts are the chunk sizes
                     if full or clen % 9 == 0:
-                        cuts = [[i] for i in range(1, clen, 1 if (full and not quick) else 4)] + [[i, i + 2] for i in range(1, clen - 2, 5)]
-                        for k in range(0, len(cuts), 24):
-                            yield dict(kind='app', bd=bd, body=body, clen=clen, buff=big, plans=[dict(chunks=c, script=[], tail=0) for c in cuts[k:k + 24]])
+                        for a, b in _ranges(1, clen, 64):
+                            yield case('chunked', a, b, 1 if (full and not quick) else 4)
 
 
 def gen_cases(tier, seed):
@@ -336,8 +394,8 @@ def gen_cases(tier, seed):
         if _split_ok(s, b'X'):
             yield dict(kind='mk', fam='dfs', bd=b'X', s=s, complete=1 if st == 'complete' else 0, dbl='all', nrand=4 if quick else 12)
     # (ss) stem + exhaustive data + terminators, header blocks, token data: all prefixes, each once
-    yield from _prefix_cases(_ss_bodies(tier), 'ss', tier)
-    # (gen) generated well-formed bodies and all their prefixes
+    yield from _prefix_cases(((bd, body, 0) for bd, body in _ss_bodies(tier)), 'ss', tier)
+    # (gen) generated well-formed bodies and their prefixes
     yield from _prefix_cases(_gen_bodies(tier, seed), 'gen', tier)
     # (app) through the application
     yield from _app_cases(tier, seed)
@@ -440,6 +498,7 @@ def _run_mk(case):
 
 
 def _app_once(bd, wire, clen, buff, script, tail, chunked):
+    """One request through the real application. Returns (what the handler and the server saw, the stream)."""
     import ombott
     app = ombott.Ombott({'max_memfile_size': buff})
     seen = {}
@@ -458,8 +517,12 @@ def _app_once(bd, wire, clen, buff, script, tail, chunked):
                 v = files[k]
                 fi.append([k, [[u.name, u.raw_filename, u.file.read()] for u in (v if isinstance(v, list) else [v])]])
             seen['forms'], seen['files'] = fo, fi
-        except Exception as e:   # noqa - the class of what the handler gets is the observation
+        except Exception as e:   # noqa - the class of what the handler gets is the observation; then let the app answer
             seen['exc'] = type(e).__name__
+            seen['exc_status'] = getattr(e, 'status_code', None)
+            ctx = e.__cause__ or e.__context__
+            seen['exc_cause'] = type(ctx).__name__ if ctx is not None else None
+            raise
         return 'ok'
     stream = FragStream(wire, script, tail or None)
     env = make_environ('/u', 'POST', stream=stream, content_type=ms.content_type_header(bd),
@@ -469,26 +532,56 @@ def _app_once(bd, wire, clen, buff, script, tail, chunked):
     out['status'] = res.code
     if res.exc is not None:
         out['escaped'] = type(res.exc).__name__
-    return out
+    return out, stream
+
+
+def _plans(case):
+    """Expand a compact app case into its concrete runs: dicts with buff, script, tail and optionally chunks."""
+    clen, lo, hi, step = case['clen'], case['lo'], case['hi'], case['step']
+    big = len(case['body']) + case['nonfile'] + 64
+    kind = case['plan']
+    if kind == 'single':
+        return [dict(buff=big, script=[i], tail=0) for i in range(lo, hi, step)]
+    if kind == 'tails':
+        return [dict(buff=big, script=[], tail=t) for t in range(lo, hi, step)]
+    if kind == 'near':
+        return [dict(buff=big, script=[i, w], tail=0) for i in range(lo, hi, step) for w in (1, 2, 3) if i + w < clen]
+    if kind == 'lastshort':
+        return [dict(buff=big, script=[i, clen - i - w], tail=0) for i in range(lo, hi, step) for w in range(1, case['w'] + 1)
+                if clen - i - w > 0]
+    if kind == 'buffs':
+        return [dict(buff=b, script=[], tail=0) for b in range(lo, hi, step)]
+    if kind == 'spooled':
+        b = case['buff']
+        return [dict(buff=b, script=[], tail=t) for t in (1, 7, b - 1)] + [dict(buff=b, script=[i], tail=0) for i in range(lo, hi, step)]
+    if kind == 'chunked':
+        out = [dict(buff=big, script=[], tail=0, chunks=[i]) for i in range(lo, hi, step)]
+        out += [dict(buff=big, script=[], tail=0, chunks=[i, i + 2]) for i in range(lo, hi, step) if i % 5 == 1 and i + 2 < clen]
+        return out
+    raise ValueError(kind)
 
 
 def _run_app(case):
     bd, clen = case['bd'], case['clen']
     body = case['body'][:clen]
     n = len(body)
-    nonfile_bound = n + 64
-    ref = _app_once(bd, body, clen, max(case['buff'], nonfile_bound) + n, [], 0, False)
-    for plan in case['plans']:
-        buff = plan.get('buff', case['buff'])
+    ref, _ = _app_once(bd, body, clen, 2 * len(case['body']) + case['nonfile'] + 128, [], 0, False)
+    for plan in _plans(case):
         chunks = plan.get('chunks')
         if chunks:
             cuts = [0] + list(chunks) + [n]
             wire = chunk_encode([body[a:b] for a, b in zip(cuts, cuts[1:]) if b > a])
-            got = _app_once(bd, wire, None, buff, plan['script'], plan['tail'], True)
+            got, stream = _app_once(bd, wire, None, plan['buff'], plan['script'], plan['tail'], True)
+            fed = [c for c in chunks if 0 < c < n]
         else:
-            got = _app_once(bd, body, clen, buff, plan['script'], plan['tail'], False)
+            got, stream = _app_once(bd, body, clen, plan['buff'], plan['script'], plan['tail'], False)
+            fed, p = [], 0
+            for k in stream.answered:      # with Content-Length framing every non-empty read is fed as one chunk
+                p += k
+                if k and p < n:
+                    fed.append(p)
         if got != ref:
-            return fail('E1.divided_vs_one_piece', boundary=bd, body=body, plan=plan, buff=buff, expected=ref, observed=got)
+            return fail('E1.divided_vs_one_piece', boundary=bd, body=body, plan=plan, cuts=fed, expected=ref, observed=got)
     return None
 
 
@@ -502,34 +595,41 @@ def run_case(case):
 
 def _close_end(case):
     s = case['s'] if case['kind'] == 'mk' else case['body'][:case['clen']]
-    return ms.close_delimiter_end(s, case['bd']), len(s)
+    sp = _split(s, case['bd'])
+    return (sp['close_end'] if sp else None), len(s)
+
+
+def _errs(case, failure):
+    """(error class seen one-piece, error class seen divided, sections equal?, cut positions)"""
+    if case['kind'] == 'mk':
+        if not failure['clause'].startswith('M'):
+            return None
+        return failure['expected'][1], failure['observed'][1], failure['observed'][0] == failure['expected'][0], failure['cuts']
+    if failure['clause'] != 'E1.divided_vs_one_piece':
+        return None
+    exp, obs = failure['expected'], failure['observed']
+    name = lambda o: (o.get('exc_cause') if o.get('exc') == 'HTTPError' else o.get('exc'))   # noqa: E731
+    return name(exp), name(obs), True, failure['cuts']
 
 
 def _is_d3(case, failure):
     """closing delimiter split between its two hyphens and followed by more bytes in the same chunk ->
     UnexpectedBodyEndError (HeadersEaeter._eat_last_hyphen sliced two bytes and compared with one)."""
     ce, n = _close_end(case)
-    if ce is None or n <= ce:
+    e = _errs(case, failure)
+    if ce is None or n <= ce or e is None:
         return False
-    if case['kind'] == 'mk':
-        return (failure['clause'].startswith('M') and failure['observed'][1] == 'UnexpectedBodyEndError'
-                and failure['expected'][1] is None and (ce - 1) in failure['cuts'])
-    return failure['clause'] == 'E1.divided_vs_one_piece' and failure['observed'].get('exc') == 'UnexpectedBodyEndError' \
-        and 'exc' not in failure['expected']
+    return e[0] is None and e[1] == 'UnexpectedBodyEndError' and (ce - 1) in e[3]
 
 
 def _is_d4(case, failure):
     """bytes behind the closing delimiter arriving in a later chunk -> StopMarkupException stored as the error
     (same sections, only the error differs)."""
     ce, n = _close_end(case)
-    if ce is None or n <= ce:
+    e = _errs(case, failure)
+    if ce is None or n <= ce or e is None:
         return False
-    if case['kind'] == 'mk':
-        return (failure['clause'].startswith('M') and failure['observed'][1] == 'StopMarkupException'
-                and failure['expected'][1] is None and failure['observed'][0] == failure['expected'][0]
-                and any(c >= ce for c in failure['cuts']))
-    return failure['clause'] == 'E1.divided_vs_one_piece' and failure['observed'].get('exc') == 'StopMarkupException' \
-        and 'exc' not in failure['expected']
+    return e[0] is None and e[1] == 'StopMarkupException' and e[2] and any(c >= ce for c in e[3] if isinstance(c, int))
 
 
 FINDINGS = {
